@@ -326,6 +326,7 @@ class FakeGateway:
         self.fail_write_armed = False
         self.pause_policy = None
         self.refuse_budget = 0        # how many further attempts the default policy refuses
+        self.refuse_kind = "refuse"
         self.connect_raises = None    # exception type the factory raises synchronously
         self.fail_policy = None
 
@@ -342,8 +343,17 @@ class FakeGateway:
         self.attempts.append(att)
         self.log.append(("attempt", round(self.loop.time(), 6)))
         outcome = await fut
-        if outcome != "accept":
+        if outcome == "refuse":
             raise ConnectionRefusedError(111, "Connection refused (injected)")
+        if outcome == "unreachable":
+            raise OSError(113, "No route to host (injected)")                 # an OSError that is not a ConnectionError
+        if outcome == "timeout":
+            raise TimeoutError("connect timed out (injected)")
+        if outcome == "noport":
+            import serial
+            raise serial.SerialException(2, "could not open port (injected)")
+        if outcome != "accept":
+            raise HarnessError(f"unknown connect outcome {outcome}")
         conn = Conn(len(self.conns), self.loop.time())
         self.conns.append(conn)
         reader = CountingStreamReader(limit=2 ** 16, loop=self.loop)
@@ -615,7 +625,7 @@ class Session:
                     out = self.connect_plan.pop(0) if self.connect_plan else "accept"
                     if out == "accept" and self.gw.refuse_budget > 0:
                         self.gw.refuse_budget -= 1
-                        out = "refuse"
+                        out = self.gw.refuse_kind
                     att.outcome = out
                     self.env(self.gw.resolve, att, out)
                     fired = True
@@ -848,6 +858,15 @@ def sp_write_fail(sess):
 def sp_refuse_next(sess):
     sess.gw.refuse_budget += 1
     return True
+
+
+def sp_fail_next(kind):
+    """the next connection attempt fails with an error of this kind (unreachable / timeout / noport)"""
+    def sp(sess):
+        sess.gw.refuse_budget += 1
+        sess.gw.refuse_kind = kind
+        return True
+    return sp
 
 
 def sp_close(sess):
